@@ -10,7 +10,8 @@ from props.c12 import shape
 ID = "C13"
 SECTIONS = ["units"]
 LEAN_MODULES = ["QExPy.Props.C13"]
-THEOREMS = []
+THEOREMS = ["QExPy.C13_separator_tie", "QExPy.C13_roundtrip_partial",
+            "QExPy.C13_printed_forms_accepted"]
 RULE = ("exponent maps over 1-4 symbols (every order), integer exponents in [-4,4] without 0 and "
         "the rational exponents that sqrt and the constant powers 1/2, 1/3, 2/3, 3/2 produce, in "
         "both unit styles; the quantity carrying the map is built through real arithmetic (unit "
